@@ -147,7 +147,11 @@ ENTRIES = {
              "hidden state). Trusted: Coq kernel, extraction, driver, mock patching + stack attribution, RecordingGenerator (self-tested same "
              "stream). Randomness bypassing numpy.random / python random is visible only through differing outputs. Known findings on the current "
              "tree (KNOWN_FINDINGS.json): the legacy Gibbs samplers draw from np.random.* and an unseeded default_rng() (call sites enumerated; "
-             "any other site is reported). The calculate_scores --seed defect was repaired (fix: 9b38441).",
+             "any other site is reported). The calculate_scores --seed defect was repaired (fix: 9b38441). The argparse option tables of the nine "
+             "CLI wrappers are re-read from the source on every run (harness/argparse_reader.py, fail-closed) and C18_source_parser_* prove, per command, "
+             "that every attribute the translated get_args / main reads is declared exactly once with the assumed kind, that --seed is an int option with a "
+             "non-None default in the four randomised commands, that chunk / chain coordinates are ints and every --*-param goes through KVAppendAction; "
+             "the real parsers are run on generated command lines and compared with the tables.",
         technique="Coq proof that a resumption-tree model of randomised steps is explicit in its answer stream; the randomised functions re-translated "
                   "from /repo's source into that resumption type on every run and proved equal to the model programs (C18_model_is_source*) + trace "
                   "conformance of the real operations to the extracted model + runtime trapping of global/unseeded generators"),
